@@ -3,8 +3,8 @@
    linearizable w.r.t. that specification (results of Pending compared as sets). *)
 From Coq Require Import List NArith Bool Arith Lia Permutation.
 From Common Require Import Lock.
-From Conc Require Import Lin LockedObject Composite.
-From C34 Require Import Model ModelConc Proofs ProofsHeap ProofsConc.
+From Conc Require Import Lin Cert LockedObject Composite.
+From C34 Require Import Model ModelConc Gen Checker Proofs ProofsHeap ProofsConc.
 Import ListNotations.
 Local Open Scope N_scope.
 
@@ -60,3 +60,22 @@ Proof.
   - rewrite Forall_forall in *. intros e He. destruct (Hs e He). apply failed_pop_noop; assumption.
   - intros s1 s2 H. unfold q_fspec, fspec in *. rewrite Hl in H. rewrite Hc, Hr. exact H.
 Qed.
+
+(* ---- the checkers applied to recorded histories ---- *)
+Theorem pq_lin_sound bud h :
+  pq_lin bud h = Some true -> linearizable (fspec qspec op res q_step) [] h.
+Proof. apply lin_check_m_true. exact res_eqb_spec. Qed.
+
+Theorem pq_lin_complete_false bud h :
+  pq_lin_complete bud h = Some false -> ~ linearizable (fspec qspec op res q_step) [] h.
+Proof. apply lin_check_b_false. exact res_eqb_spec. Qed.
+
+Theorem pq_cert_sound h p :
+  pq_cert h p = true -> linearizable (fspec qspec op res q_step) [] h.
+Proof. apply cert_ok_sound. exact res_eqb_spec. Qed.
+
+Theorem exists_unlocked_refuted :
+  exists c : cfg pq loc op res,
+    reach pq loc op res q_init q_fin q_mstep prefix_mode (init_cfg pq loc op res m_new push_and_exists) c /\
+    at_loc c 0 writes_map = true /\ at_loc c 1 reads_map = true.
+Proof. exists race_cfg. exact exists_races_with_push. Qed.
